@@ -206,6 +206,7 @@ impl<'c, KD: Kind, const N: usize> MapEng<'c, KD, N> {
         let unchecked = unchecked && !dup_any && !liar;
         if unchecked {
             cx.bump(S::unchecked_disjoint);
+            self.op_unchecked = true;
         }
         let owner = if unchecked { P18 } else { P13 };
         // what get_mut returns for each key, just before
@@ -391,6 +392,7 @@ impl<'c, KD: Kind, const N: usize> MapEng<'c, KD, N> {
             let slot = self.slots[w].as_mut().unwrap();
             let cx = &mut *self.cx;
             cx.cur_op = "overflow_sweep";
+            self.op_overflow = true;
             let key = KD::key(k);
             let val = KD::val(v);
             let m = &mut slot.c.m;
@@ -537,6 +539,7 @@ impl<'c, KD: Kind, const N: usize> MapEng<'c, KD, N> {
         let Some(slot) = self.slots[w].as_ref() else { return };
         let cx = &mut *self.cx;
         let cap = slot.c.m.capacity();
+        self.op_overflow = true;
         cx.chk(P03, cap == N, "capacity", || format!("capacity()={cap}, N={N}"));
         let c = scale(a, N + 3);
         #[allow(deprecated)]
@@ -606,6 +609,7 @@ impl<'c, KD: Kind, const N: usize> MapEng<'c, KD, N> {
         }
         if overflow_at.is_some() {
             cx.bump(S::bulk_overflow);
+            self.op_overflow = true;
         }
         let items: Vec<(KD::K, KD::V)> = keys.iter().enumerate().map(|(i, k)| (KD::key(*k), KD::val(KD::vnorm(base + i as u32)))).collect();
         let ids: Vec<(u32, u32)> = items.iter().map(|(k, v)| (KD::kid(k), KD::vid(v))).collect();
